@@ -815,6 +815,19 @@ class LanguageGraph():
                 super_asset.sub_assets.append(asset)
                 asset.super_assets.append(super_asset)
 
+        # Every association has to connect two assets of the language. The
+        # loop below only reaches the associations of known assets.
+        for association in self._lang_spec['associations']:
+            for side in ('left', 'right'):
+                if not any(asset.name == association[side + 'Asset'] \
+                        for asset in self.assets):
+                    msg = '%s asset "%s" for association "%s" not found!'
+                    logger.error(msg, side.capitalize(),
+                        association[side + 'Asset'], association["name"])
+                    raise LanguageGraphAssociationError(
+                        msg % (side.capitalize(),
+                        association[side + 'Asset'], association["name"]))
+
         # Generate all of the association nodes of the language graph.
         for asset in self.assets:
             logger.debug(
